@@ -1,4 +1,5 @@
 // C15 (matrices): copy / move / assignment / swap of Matrix<Options> give equal, independent objects (pool-allocated entries, row hooks, column settings).
+#define VP_NEED_IDENT
 #include "pm_common.h"
 #include <utility>
 static void diverge(Mat& x, int& n) { if (n > 1) { x.remove_last(); n--; } }
@@ -10,7 +11,10 @@ extern "C" void harness() {
   Mat* a = new Mat(M, VP_P);
 #endif
   for (int j = 0; j < M; j++) insert_cell(*a, j);
-  int na = M, nb = M;
+  int na = M, nb = M; for (int i = 0; i < M; i++) idAtPos[i] = i;
+#if VP_VINE   /* the source may carry a pending (lazy) row permutation: one admissible transposition right before it is copied / assigned / swapped */
+  { int i = vp_fork_int(vp_int("preswap", -1, M - 2)); if (i >= 0) { int x = cell[i], y = cell[i + 1]; vp_assume((x & y) != x); a->vine_swap(i); cell[i] = y; cell[i + 1] = x; vp_reach("preswap"); } }
+#endif
   int how = vp_fork_int(vp_int("how", 0, 5)); Mat* b = nullptr;
 #ifdef VP_KF_MOVED
   vp_assume(how == 3 || how == 4);
@@ -40,6 +44,10 @@ extern "C" void harness() {
 #endif
     swap(*a, *b); na = 0; vp_reach("swap"); }
   check_barcode(*b, nb, "the new matrix has the barcode of the source", "the new matrix has as many bars as the source");
+#if VP_VINE
+  check_identities(*b, nb);   // columns, pivots, zero tests and R = D U of the new object (reads through the row permutation)
+  if (na) check_identities(*a, na);
+#endif
   if (na) check_barcode(*a, na, "the source keeps its barcode", "the source keeps its bars");
   if (na) { if (vp_fork_int(vp_int("mutate", 0, 1))) { diverge(*a, na); vp_reach("mutate-source"); } else { diverge(*b, nb); vp_reach("mutate-copy"); }
     check_barcode(*a, na, "source follows its own history after divergence", "source bar count after divergence"); check_barcode(*b, nb, "copy follows its own history after divergence", "copy bar count after divergence");
